@@ -12,10 +12,10 @@ include R hwf hwf' h1 h2
 /-- the chains of the renumbered molecule are, up to order, the renamed chains re-canonicalised -/
 theorem ren_chains_perm (cs cs' : List Path) (hc : chains m lo hi = .ok cs) (hc' : chains m' lo hi = .ok cs') :
     cs'.Perm (cs.map fun c => canon (c.map f)) := by
-  have hex := chains_exact_aux m (closed_of_wf m hwf) lo hi h1 h2 cs hc
-  have hex' := chains_exact_aux m' (closed_of_wf m' hwf') lo hi h1 h2 cs' hc'
-  have hnd := chains_nodup_aux m (wf_parts m hwf).1 lo hi cs hc
-  have hnd' := chains_nodup_aux m' (wf_parts m' hwf').1 lo hi cs' hc'
+  have hex := chains_exact_aux m hwf lo hi h1 h2 cs hc
+  have hex' := chains_exact_aux m' hwf' lo hi h1 h2 cs' hc'
+  have hnd := chains_nodup_aux m hwf lo hi cs hc
+  have hnd' := chains_nodup_aux m' hwf' lo hi cs' hc'
   have hsimple : ∀ c ∈ cs, SimplePath m c ∧ canon c = c := by
     intro c hc
     obtain ⟨p, hp, _, _, rfl⟩ := (hex c).mp hc
@@ -54,7 +54,7 @@ theorem ren_count (H : TupleHash) (cs cs' : List Path) (hc : chains m lo hi = .o
     (K : List Int) :
     (cs'.filter fun c => fragKey H m' c = K).length = (cs.filter fun c => fragKey H m c = K).length := by
   have hperm := ren_chains_perm R hwf hwf' lo hi h1 h2 cs cs' hc hc'
-  have hex := chains_exact_aux m (closed_of_wf m hwf) lo hi h1 h2 cs hc
+  have hex := chains_exact_aux m hwf lo hi h1 h2 cs hc
   rw [(hperm.filter _).length_eq, List.filter_map, List.length_map]
   congr 1
   apply List.filter_congr
